@@ -36,25 +36,7 @@ func (c08) Gen(tier string, seed int64, emit0 func([]Ev)) {
 			if tier != "thorough" && r.Intn(3) != 0 {
 				target = 1024 + r.Intn(300)
 			}
-			if s.Cmd.Kind == "insert" && !s.Cmd.Cancel && !s.Cmd.Program && r.Intn(2) == 0 {
-				for len(s.Cmd.Comps) < 120 {
-					s.Cmd.Comps = append(s.Cmd.Comps, absComp{Tag: r.Intn(256), Spec: !s.Cmd.Immediate && r.Intn(4) != 0, Pts: rnd33(r)})
-				}
-			}
-			for len(s.section()) < target-270 {
-				d := rndSeg(r)
-				d.Cancel = false
-				d.UpidType, d.Mid = []int{1, 2, 3, 8, 9, 12, 14, 15}[r.Intn(8)], nil
-				d.Upid = rndBytes(r, 150+r.Intn(50)) // descriptor_length is one byte: keep the body below 256
-				s.Descs = append(s.Descs, d)
-			}
-			for k := 0; len(s.section()) < target && k < 300; k++ {
-				d := &s.Descs[len(s.Descs)-1]
-				if len(d.bytes()) >= 257 {
-					break
-				}
-				d.Upid = append(d.Upid, byte(r.Intn(256)))
-			}
+			growSig(r, &s, target)
 		case 20:
 			s.Cmd = absCmd{Kind: "other", Type: []int{4, 7, 255, 1, 8}[r.Intn(5)], Body: rndBytes(r, r.Intn(12))}
 		case 21:
